@@ -566,6 +566,13 @@ fn gen_content(rng: &mut Rng) -> Obj {
             2 => "type",
             3 => "signature",
             4 => "unsigne",
+            // keys that events carry at top level and that other algorithms of the library strip
+            // (redaction, reference hash) — signing and verifying must not
+            5 => *rng.pick(&[
+                "age_ts", "event_id", "origin", "outlier", "destination", "prev_state", "redacts", "depth",
+                "membership", "unsigned_device_count", "org.example.signatures", "prev_hashes", "signatures2",
+                "origin_server_ts", "auth_events", "prev_events", "room_id", "sender", "state_key",
+            ]),
             _ => *rng.pick(STR_POOL),
         };
         let d = rng.below(3) as u32 + 1;
@@ -713,6 +720,19 @@ fn ref_sign_all(obj: &Obj, signers: &[Signer]) -> Obj {
 fn gen_seq(rng: &mut Rng) -> Req {
     let mut obj = gen_content(rng);
     gen_unsigned(rng, &mut obj);
+    gen_seq_of(rng, obj)
+}
+
+/// Objects whose signed bytes (canonical JSON without `signatures`/`unsigned`) are exactly `len`
+/// bytes long: signing and verification have no size limit (the 65 535-byte limit belongs to the
+/// event hashes), so sign-then-verify must hold on both sides of that length.
+fn big_object(len: usize) -> Obj {
+    let mk = |n: usize| to_obj(serde_json::json!({"age_ts": 7, "content": {"body": "a".repeat(n)}, "type": "m.room.message"}));
+    let base = ref_signed_bytes(&mk(0)).len();
+    mk(len - base)
+}
+
+fn gen_seq_of(rng: &mut Rng, mut obj: Obj) -> Req {
     let signers = gen_signers(rng, 6);
     let mut expect = "Eok";
     let mut cls = "seq_clean";
@@ -1216,7 +1236,12 @@ fn gen(rng: &mut Rng, n: usize, _tier: &str) -> Vec<Req> {
     for v in RFC8032 {
         reqs.push(Req::new(format!("c02.rfc h{} h{} h{} h{}", v[0], v[1], v[2], v[3]), "rfc8032"));
     }
-    while reqs.len() < n + RFC8032.len() {
+    for len in [65_535usize, 65_536, 65_537, 70_001] {
+        let mut r = gen_seq_of(rng, big_object(len));
+        r.cls = format!("{}_big", r.cls);
+        reqs.push(r);
+    }
+    while reqs.len() < n + RFC8032.len() + 4 {
         match rng.below(20) {
             0..=4 => reqs.push(gen_sign(rng)),
             5..=7 => reqs.push(gen_seq(rng)),
